@@ -605,6 +605,13 @@ fn base_scenarios() -> Vec<(&'static str, Op)> {
             let fd = r.fd.value();
             Held::of(vec![fd], r)
         }),
+        ("setup_io_uring beyond the kernel's maximum (with and without CLAMP) + drop", |_e| {
+            // more entries than the kernel allows: refused without IORING_SETUP_CLAMP, cut down to the maximum with it
+            let _ = rusl::io_uring::setup_io_uring(40_000, rusl::platform::IoUringParamFlags::empty(), 0, 0);
+            let r = ok_or_none!(rusl::io_uring::setup_io_uring(40_000, rusl::platform::IoUringParamFlags::IORING_SETUP_CLAMP, 0, 0));
+            let fd = r.fd.value();
+            Held::of(vec![fd], r)
+        }),
         ("pipe/pipe2", |_e| {
             let a = ok_or_none!(rusl::unistd::pipe());
             let b = match rusl::unistd::pipe2(OpenFlags::O_CLOEXEC) {
